@@ -1,19 +1,18 @@
 (* C07 (first clause): whatever deserialize returns is valid for the type and canonical, hence a fixed point of
-   serialize -> deserialize.  Proved for types without float fields (see Props/C07.v for what is missing for floats)
-   and with extents below 2^35 bits (so that every delimiter header fits its 32 bits). *)
+   serialize -> deserialize.  For all types whose extents are below 2^35 bits (so that every delimiter header fits its
+   32 bits); float fields are covered by FloatIdem.fwiden_idem. *)
 From Coq Require Import ZArith List Bool Lia ZifyBool.
 From PV Require Import Util.ListSet Util.Sumset BLS.Model BLS.Den BLS.Proofs Layout.Types Layout.Spec Layout.Proofs Layout.ProofsSpec.
 From PV Require Import Serdes.Float Serdes.Utf8 Serdes.Model Serdes.Bits Serdes.BitsProofs Serdes.WriterProofs Serdes.ReaderProofs
-  Serdes.Spec Serdes.SerProofs Serdes.EncProofs Serdes.DeserProofs Serdes.Roundtrip Serdes.LenProofs.
+  Serdes.Spec Serdes.SerProofs Serdes.EncProofs Serdes.DeserProofs Serdes.Roundtrip Serdes.LenProofs Serdes.FloatProofs Serdes.FloatIdem.
 Import ListNotations.
 Open Scope Z_scope.
 
 Ltac Zify.zify_post_hook ::= Z.to_euclidean_division_equations.
 
-(* no float fields; every extent below 2^35 bits *)
+(* every extent below 2^35 bits *)
 Fixpoint plain (t : ty) : bool :=
   match t with
-  | TPrim (PFloat _ _) => false
   | TPrim _ | TVoid _ => true
   | TFix e _ | TVar e _ => plain e
   | TStruct _ fs | TUnion _ fs => forallb (fun f => plain (snd f)) fs
@@ -26,6 +25,19 @@ Definition dec_ok (t : ty) : Prop := forall r v r', rok r -> deser t r = Ok (v, 
 
 Lemma read_ok r n : rok r -> 0 <= n -> 0 <= fst (read_bits r n) < 2 ^ n /\ snd (read_bits r n) = r_adv r n.
 Proof. intros [A B] Hn. destruct (read_bits_spec r n A Hn B) as (S1 & R & _). auto. Qed.
+
+Lemma read_bytes_ok k : forall r, rok r ->
+  bytes_ok (fst (read_bytes k r)) /\ length (fst (read_bytes k r)) = k /\ snd (read_bytes k r) = r_adv r (8 * Z.of_nat k).
+Proof.
+  induction k as [|k IH]; intros r Hr; cbn [read_bytes].
+  - cbn [fst snd]. repeat split; [constructor|]. symmetry. apply r_adv_0.
+  - destruct (read_ok r 8 Hr ltac:(lia)) as [R S1]. destruct (read_bits r 8) as [b r1]. cbn [fst snd] in *. subst r1.
+    destruct (IH (r_adv r 8) (rok_adv r 8 Hr ltac:(lia))) as (A & B & C).
+    destruct (read_bytes k (r_adv r 8)) as [bs r2]. cbn [fst snd] in *. subst r2. repeat split.
+    + constructor; [unfold byte_ok; change (2 ^ 8) with 256 in R; lia|assumption].
+    + simpl. lia.
+    + rewrite r_adv_adv. f_equal. lia.
+Qed.
 
 Lemma dec_elems e : dec_ok e -> forall n r vs r', rok r -> deser_elems (deser e) n r = Ok (vs, r') ->
   length vs = n /\ Forall (good e) vs /\ rok r'.
@@ -83,7 +95,7 @@ Proof.
     pose proof Hwf as Hwf0; cbn [wft] in Hwf; cbn [deser] in E; try discriminate.
   - (* primitives *)
     inversion E as [E']. clear E. pose proof (prim_width_pos p Hwf) as Hp. unfold good. cbn [validb canon].
-    destruct p as [ | wd c | wd | wd c | | ]; cbn [deser_prim prim_width plain] in *; try discriminate.
+    destruct p as [ | wd c | wd | wd c | | ]; cbn [deser_prim prim_width plain] in *.
     + destruct (read_ok r 1 Hr ltac:(lia)) as [R S1]. destruct (read_bits r 1) as [x r1]. cbn [fst snd] in *. inversion E'; subst.
       split; [|apply rok_adv; [assumption|lia]]. repeat split; try discriminate.
     + destruct (read_ok r wd Hr ltac:(lia)) as [R S1]. destruct (read_bits r wd) as [x r1]. cbn [fst snd] in *. inversion E'; subst.
@@ -94,6 +106,16 @@ Proof.
       unfold canon_prim, cast_int, clamp. cbn [as_int]. f_equal. rewrite !shiftl_1 by lia. pose proof (pow2_double wd ltac:(lia)).
       assert (0 < 2 ^ (wd - 1)) by (apply Z.pow_pos_nonneg; lia).
       destruct (2 ^ (wd - 1) <=? x) eqn:C; lia.
+    + simpl in Hwf. assert (Hw : wd = 16 \/ wd = 32 \/ wd = 64) by lia.
+      destruct (read_bytes_ok (Z.to_nat (wd / 8)) r Hr) as (Ob & Lb & Sb).
+      destruct (read_bytes (Z.to_nat (wd / 8)) r) as [bs r1]. cbn [fst snd] in *. inversion E'; subst.
+      assert (Rx : 0 <= from_bytes_le bs < 2 ^ wd).
+      { split; [apply from_bytes_le_nonneg; assumption|]. pose proof (from_bytes_le_bound bs Ob) as Bd. unfold zlen in Bd. rewrite Lb in Bd.
+        replace (8 * Z.of_nat (Z.to_nat (wd / 8))) with wd in Bd by (destruct Hw as [ -> | [ -> | -> ] ]; reflexivity). exact Bd. }
+      split; [|apply rok_adv; [assumption|lia]]. repeat split; try discriminate.
+      * unfold valid_prim, fwiden. pose proof (fencode_range 64 (fdecode wd (from_bytes_le bs)) ltac:(auto) (fdecode_nonneg _ _)) as Rg.
+        replace ((0 <=? fencode 64 (fdecode wd (from_bytes_le bs))) && (fencode 64 (fdecode wd (from_bytes_le bs)) <? 2 ^ 64)) with true by lia. reflexivity.
+      * unfold canon_prim. rewrite (fwiden_idem wd c _ Hw Rx). reflexivity.
     + destruct (read_ok r 8 Hr ltac:(lia)) as [R S1]. destruct (read_bits r 8) as [x r1]. cbn [fst snd] in *. inversion E'; subst.
       split; [|apply rok_adv; [assumption|lia]]. repeat split; try discriminate.
       unfold canon_prim, cast_int. cbn [as_int]. f_equal. apply Z.mod_small. change (2 ^ 8) with 256 in R. lia.
